@@ -852,6 +852,7 @@ def exprStsFM : Node :=
 example : inFrag2 {} exprSts = true ∧ typed2 (cfgWith4 .asIs) [] exprSts = true ∧
     (check (cfgWith4 .asIs) exprSts).okType = some boolTy ∧
     -- `map` / `filter` over structs: in the fragment under the documented result type only
+    typed2 (cfgWith4 .asIs) [] (.builtin {} "len" [.slice {} (ident "Sts") (some (.int {} 1)) none]) = true ∧
     inFrag2 {} exprStsFM = true ∧ typed2 (cfgWith4 .repaired) [] exprStsFM = true ∧
     typed2 (cfgWith4 .asIs) [] exprStsFM = false ∧
     (check (cfgWith4 .repaired) exprStsFM).okType = some boolTy := by
